@@ -287,7 +287,9 @@ def run(prop, tier):
         # and runs again: the thread row shows it exactly in the states of its tracking mode, the CPU row exactly while the thread runs
         def mode_sweep():
             X0 = Ev(0, "OHx", i32(0, 101) + i64(0))
-            sw_spec = [{"name": "A", "cpus": [(0, 0)], "procs": [{"pid": 100, "threads": [101]}]}]
+            # (two CPUs whose logical indices and physical ids run in opposite directions: index 0, where the thread runs, is the
+            # second CPU row)
+            sw_spec = [{"name": "A", "cpus": [(0, 5), (1, 2)], "procs": [{"pid": 100, "threads": [101]}]}]
             steps = [("running", None), ("cooling", "OHc"), ("paused", "OHp"), ("warming", "OHw"), ("running", "OHr")]
             nsw = 0
             for model in ("nosv", "nanos6", "nodes", "mpi", "tampi", "openmp", "kernel"):
@@ -311,9 +313,12 @@ def run(prop, tier):
                                 disp[(n, row, ty)] = val
                             want_t = g["value"] if mode_ok(MODE[g["type"]], st) else 0
                             want_c = g["value"] if st == "running" else 0
-                            got_t, got_c = disp.get(("thread", 1, g["type"]), 0), disp.get(("cpu", 1, g["type"]), 0)
+                            got_t, got_c = disp.get(("thread", 1, g["type"]), 0), disp.get(("cpu", 2, g["type"]), 0)
+                            other = disp.get(("cpu", 1, g["type"]), 0)
+                            if other not in (0, CPU_DEFAULT.get(g["type"], 0)):
+                                got_c = ("the row of the CPU nobody runs on shows %d" % other)
                             if got_t != want_t or got_c != want_c:
-                                ctx.violation("model %s: region %s (%s) open, thread %s: thread row type %d shows %d (expected %d), CPU row shows %d (expected %d)" % (
+                                ctx.violation("model %s: region %s (%s) open, thread %s: thread row type %d shows %d (expected %d), CPU row shows %s (expected %d)" % (
                                     model, mcv, g["label"], st, g["type"], got_t, want_t, got_c, want_c),
                                     {"engine": "E3 emu_server", "check": "mode-sweep", "model": model, "history": [e.line() for e in hist]},
                                     {"kind": "mode-sweep", "mcv": mcv, "state": st})
